@@ -106,4 +106,58 @@ Section Eloss.
     else ret r1.
   Definition eloss_urban (u : urban_state) : M T :=
     a <- urban_excitation u ;; b <- urban_ionization u ;; ret (ub_scaling u * (a + b)).
+
+  (** ** EnergyLossUrbanDistribution constructor: width correction, excitation
+      cross sections (two-level / single-level / none), ionisation cross section.
+      Material inputs: UrbanFluctuationParameters (binding energies E_i, their
+      logs, oscillator strengths f_i), mean excitation energy I and log I.
+      Returns the state and the excitation branch taken:
+      0 = none (max_energy <= I), 1 = none (w <= log I), 2 = single level
+      (log I < w <= log E_2), 3 = two levels (w > log E_2) *)
+  Record urban_mat := UrbanMat {
+    um_I : T; um_logI : T; um_be0 : T; um_be1 : T; um_lbe0 : T; um_lbe1 : T; um_f0 : T; um_f1 : T }.
+  Definition urban_rate : T := nQ 56 100.
+  Definition urban_e0 : T := nQ 1 100000.
+  Definition urban_construct (m : urban_mat) (unscaled_mean max_energy two_mebsgs beta_sq : T)
+      : urban_state * nat :=
+    let scaling := nhalf * nmin (nQ 1 1000 / max_energy) n1 + n1 in
+    let mean := unscaled_mean / scaling in
+    let w := nlog two_mebsgs - beta_sq in
+    let w0 := um_logI m in
+    let branch :=
+      if um_I m <? max_energy then
+        if w0 <? w then (if um_lbe1 m <? w then 3%nat else 2%nat) else 1%nat
+      else 0%nat in
+    let '(xs0, xs1) :=
+      match branch with
+      | 3%nat =>
+          let c := mean * (n1 - urban_rate) / (w - w0) in
+          (c * um_f0 m * (w - um_lbe0 m) / um_be0 m, c * um_f1 m * (w - um_lbe1 m) / um_be1 m)
+      | 2%nat => (mean * (n1 - urban_rate) / um_be0 m, n0)
+      | _ => (n0, n0)
+      end in
+    let sc :=
+      match branch with
+      | 3%nat | 2%nat =>
+          if xs0 <? nofZ 42 then nhalf + (n2 * n2 - nhalf) * nsqrt (xs0 / nofZ 42) else n2 * n2
+      | _ => n1
+      end in
+    let '(be0', xs0') :=
+      match branch with
+      | 3%nat | 2%nat => (um_be0 m * sc, xs0 / sc)
+      | _ => (um_be0 m, xs0)
+      end in
+    let xs_ion0 := mean * (max_energy - urban_e0)
+                   / (max_energy * urban_e0 * nlog (max_energy / urban_e0)) in
+    let xs_ion := if n0 <? xs0' + xs1 then xs_ion0 * urban_rate else xs_ion0 in
+    (Urban max_energy scaling be0' (um_be1 m) xs0' xs1 xs_ion, branch).
+
+  (** mean energy lost per ionising collision when sampled over the whole
+      interval (alpha = 1): E = e0 / U(e0/Emax, 1) *)
+  Definition urban_ion_mean (max_energy : T) : T :=
+    urban_e0 * max_energy * nlog (max_energy / urban_e0) / (max_energy - urban_e0).
+  (** first moment implied by the constructor's parameters *)
+  Definition urban_params_first_moment (u : urban_state) : T :=
+    ub_scaling u * (ub_xs0 u * ub_be0 u + ub_xs1 u * ub_be1 u
+                    + ub_xs_ion u * urban_ion_mean (ub_max_energy u)).
 End Eloss.
